@@ -70,7 +70,19 @@ def generate(seed, tier, k):
         mesh["perturb_before_convert"] = False
         mesh["perturb"]["amp"] = min(mesh["perturb"]["amp"], 0.1)
     case = r.choice(["patch", "uniaxial", "uniaxial", "biaxial"])
+    lagrange = r.random() < 0.08
+    if lagrange:
+        # one arbitrary-order Lagrange cell (order 2 or 3; with the element's VTK or plain grid numbering),
+        # interior nodes moved: the displacement patch test
+        # (3D: order 2 only - the default rule of a cubic Lagrange hexahedron, 4^3 Gauss points, is exact to
+        # degree 7, the patch test with moved interior nodes needs degree 3 p - 1 = 8)
+        order = 2 if dim == 3 else r.choice([2, 3, 4])
+        permute = r.random() < 0.5
+        mesh = {"gen": "LagrangeCell", "n": [order + 1] * dim, "order": order, "dim": dim, "permute": permute, "a": [0.0] * dim, "b": [gen.rfloat(r, 0.6, 1.6, 2) for _ in range(dim)], "perturb": {"seed": r.randrange(1 << 30), "amp": r.choice([0.1, 0.2, 0.3])}}
+        case = "patch"
     doc = {"kind": "job", "seed": seed, "profile": "homogeneous", "mesh": mesh, "field": {"kind": "Field" if dim == 3 else "PlaneStrain"}}
+    if lagrange:
+        doc["region"] = {"order": mesh["order"], "permute": mesh["permute"]}
     if mat["name"] == "NI":
         doc["items"] = [{"type": "SolidBodyNearlyIncompressible", "umat": {"name": "NeoHooke", "p": {"mu": mat["p"]["mu"]}}, "bulk": mat["p"]["bulk"]}]
     else:
